@@ -222,8 +222,9 @@ CLAIMED = {
             'with the shifts_down table, and wiring rules (like-named fixed functions, memoisation, '
             'context and interval constants)',
             'History independence: the memo serves a stored value only for requested <= stored '
-            'precision, shifts by exactly the difference and stores the value before the tag (an '
-            'aborted recomputation cannot leave a new tag on an old value).  Direction safety: the '
+            'precision, shifts by exactly the difference and replaces the (tag, value) pair in a way that is safe at '
+            'every interruption point (tag invalidated, value stored, tag validated - or one atomic store; the '
+            'earlier clause "value before tag" was wrong and a real defect: DESIGN 10.4).  Direction safety: the '
             'floor value of a positive constant is bumped by one unit exactly for the modes for which '
             'truncation goes the wrong way, then rounded once with the caller\'s (prec, rnd); the '
             'interval constants evaluate (floor, ceiling) at one precision.  The evaluation sits in a retry loop that '
